@@ -259,14 +259,15 @@ def lw(ctx):
                     pts = list(u.reads.get(cf, [])) + [(b2, len(fn.blocks[b2]['stmts'])) for (b2, m, t) in u.calls.get(cf, [])]
                     good = False
                     for p in pts:
-                        if _before(fn, dom, p, (bb, i)) and (_guards_at(ctx, fn, cls, p[0], p[1]) & guards):
+                        # read and registration under one hold of the lock, in either order: nobody can change the condition in between
+                        if (_before(fn, dom, p, (bb, i)) or _before(fn, dom, (bb, i), p)) and (_guards_at(ctx, fn, cls, p[0], p[1] if p[1] < len(fn.blocks[p[0]]['stmts']) else 'term') & guards):
                             good = True
                     if not good:
                         missing.append(cf)
                 if missing:
                     out.append(bad('LW1', key, 'registers a waker in %s without re-reading %s in the same critical section: if the condition became true after the last test, the notifier found an empty slot and nobody will wake this sleeper (%s)' % (W, '/'.join(missing), slot['what']), loc=fn.loc(bb, i), fn=fname))
                 else:
-                    out.append(ok('LW1', key, 'condition field(s) %s read earlier in the same critical section' % '/'.join(slot['cond']), loc=fn.loc(bb, i), fn=fname))
+                    out.append(ok('LW1', key, 'condition field(s) %s read in the same critical section' % '/'.join(slot['cond']), loc=fn.loc(bb, i), fn=fname))
         # --- LW2: enabling writes
         for fname, u in sorted(uses.items()):
             fn = F.fn(fname)
@@ -477,8 +478,8 @@ def lw_prov(ctx):
         out.append(ok('LW-prov', 'PipeContext::poll', 'the waker handed to the poll function is built from a PipeWaker', fn='desync::PipeContext::poll'))
     else:
         out.append(bad('LW-prov', 'PipeContext::poll', 'the waker handed to the pipe poll function is no longer (only) a PipeWaker', fn='desync::PipeContext::poll'))
-    if n < 2:
-        out.append(undecided('LW-prov', 'floor', 'found %d stores to notify_stream_closed, expected at least 2' % n))
+    if n < 1:
+        out.append(undecided('LW-prov', 'floor', 'found no store to notify_stream_closed'))
     return out
 
 
